@@ -8,7 +8,7 @@
    fixes/C19-rollout-depth.patch), [rl_orig] = maxDepth_ - depth + 1 (/repo today).  The tree
    theorems hold for every [rl]; the horizon theorem needs [rl_fixed] and is refuted for [rl_orig]. *)
 From Coq Require Import QArith List Arith Lia.
-From AIT Require Import C19.Model C19.Spec C19.Proofs C19.ProofsMCTS C19.ProofsPOMCP C19.ProofsTop.
+From AIT Require Import C19.Model C19.Spec C19.Proofs C19.ProofsMCTS C19.ProofsPOMCP C19.ProofsTop C19.ProofsRange C19.ProofsRange2 C19.ProofsParticles.
 Import ListNotations.
 Local Open Scope nat_scope.
 
@@ -84,6 +84,28 @@ Theorem promotion_keeps_subtree_mcts : forall A term disc rl iters g a s1 h tr,
 Proof. exact mcts_promotion_lemma. Qed.
 Print Assumptions promotion_keeps_subtree_mcts.
 
+
+(* Value range.  One call of sampleAction with the repaired rollout length, rewards in [-R, R] and
+   0 <= disc: if the tree it starts from is consistent and within range for the previous horizon
+   hp <= h + 1 (vacuous for a call from scratch: node0), every recorded return and every estimate
+   of a visited action at depth d lies within R * sum_{k < h - d} disc^k. *)
+Theorem value_in_range_mcts : forall A term disc R iters g hp op tr g' a tr' sts,
+  0 < A -> (0 <= R)%Q -> (0 <= disc)%Q -> trace_ok A tr -> rewards_in R tr ->
+  counts_ok g /\ mean_ok g /\ shape_ok A g ->
+  tree_all_d (rets_in R disc hp) 0 g -> hp <= mop_h op + 1 ->
+  mcts_op A term disc rl_fixed iters g op tr = (g', a, tr', sts) ->
+  tree_all_d (rets_in R disc (mop_h op)) 0 g' /\ tree_all_d (value_in R disc (mop_h op)) 0 g'.
+Proof. exact mcts_range_lemma. Qed.
+Print Assumptions value_in_range_mcts.
+
+(* /repo today: horizon 2, unit rewards, no discount: the root estimate is 4, the 2-step maximum 2 *)
+Theorem value_in_range_mcts_refuted : exists A term disc R iters s h tr g' a tr' sts,
+  0 < A /\ (0 <= R)%Q /\ (0 <= disc)%Q /\ trace_ok A tr /\ rewards_in R tr /\
+  mcts_op A term disc rl_orig iters node0 (MFresh s h) tr = (g', a, tr', sts) /\
+  ~ tree_all_d (value_in R disc h) 0 g'.
+Proof. exact mcts_range_refuted_lemma. Qed.
+Print Assumptions value_in_range_mcts_refuted.
+
 (* ------------------------------------------------------------------ POMCP ----------------- *)
 
 Theorem tree_counts_invariant_pomcp : forall A term disc rl iters ps0 h0 tr0 ops,
@@ -145,6 +167,44 @@ Theorem promotion_keeps_subtree_pomcp : forall A term disc rl iters g a o h ps t
 Proof. exact pomcp_promotion_lemma. Qed.
 Print Assumptions promotion_keeps_subtree_pomcp.
 
+
+Theorem value_in_range_pomcp : forall A term disc R iters g hp op tr g' a tr' sts,
+  0 < A -> (0 <= R)%Q -> (0 <= disc)%Q -> trace_ok A tr -> rewards_in R tr ->
+  counts_ok g /\ mean_ok g /\ shape_ok A g ->
+  tree_all_d (rets_in R disc hp) 0 g -> hp <= pop_h op + 1 ->
+  pomcp_op A term disc rl_fixed iters g op tr = (g', a, tr', sts) ->
+  tree_all_d (rets_in R disc (pop_h op)) 0 g' /\ tree_all_d (value_in R disc (pop_h op)) 0 g'.
+Proof. exact pomcp_range_lemma. Qed.
+Print Assumptions value_in_range_pomcp.
+
+Theorem value_in_range_pomcp_refuted : exists A term disc R iters ps h tr g' a tr' sts,
+  0 < A /\ (0 <= R)%Q /\ (0 <= disc)%Q /\ trace_ok A tr /\ rewards_in R tr /\
+  pomcp_op A term disc rl_orig iters node0 (PFresh ps h) tr = (g', a, tr', sts) /\
+  ~ tree_all_d (value_in R disc h) 0 g'.
+Proof. exact pomcp_range_refuted_lemma. Qed.
+Print Assumptions value_in_range_pomcp_refuted.
+
+(* Particle beliefs: after any history, every particle stored in the node reached from its parent by
+   (action i, observation o) is the next state of some logged sampleSOR call made with action i that
+   returned observation o (pool = all calls logged during the history).  The chaining "from a state
+   of the parent's belief" is checked on the real code by the driver (log continuity + root particle
+   in the root belief), not proved here. *)
+Theorem particles_consistent_pomcp : forall A term disc rl iters ps0 h0 tr0 ops,
+  0 < A -> trace_ok A tr0 -> Forall (fun p => trace_ok A (snd p)) ops ->
+  particles_ok (tr0 ++ concat (map snd ops))
+               (pomcp_session A term disc rl iters node0 ((PFresh ps0 h0, tr0) :: ops)).
+Proof. exact pomcp_particles_lemma. Qed.
+Print Assumptions particles_consistent_pomcp.
+
+(* the boolean checkers the driver runs on the implementation's outputs are sound *)
+Theorem counts_checker_sound : forall n, counts_okb n = true -> counts_ok n.
+Proof. exact counts_okb_sound. Qed.
+Print Assumptions counts_checker_sound.
+
+Theorem steps_checker_sound : forall h sts, steps_okb h sts = true -> Forall (fun st => st <= h) sts.
+Proof. exact steps_okb_sound. Qed.
+Print Assumptions steps_checker_sound.
+
 (* ------------------------------------------------------------------ examples -------------- *)
 
 (* the hypotheses are satisfiable on a history that builds a depth-2 tree and then promotes it *)
@@ -165,3 +225,15 @@ Example ex_pomcp_history :
                          [(PFresh [0; 1] 3, tr0); (PAdvance 0 1 2 [0], tr1)] in
   trace_ok 2 tr0 /\ trace_ok 2 tr1 /\ bel g = [1; 0] /\ nN g = 4.
 Proof. cbv zeta. repeat split; try (repeat constructor; fail); vm_compute; reflexivity. Qed.
+
+(* the value-range hypotheses are satisfiable: a call from scratch (node0 is in range for any hp) *)
+Example ex_range_hyps :
+  let tr := [Ev 0 0 1 0 1%Q; Ev 1 1 0 0 (-2)%Q] in
+  (0 <= 2)%Q /\ (0 <= 1#2)%Q /\ trace_ok 2 tr /\ rewards_in 2 tr /\
+  (counts_ok node0 /\ mean_ok node0 /\ shape_ok 2 node0) /\ tree_all_d (rets_in 2 (1#2) 0) 0 node0.
+Proof.
+  cbv zeta. split; [discriminate|]. split; [discriminate|]. split; [repeat constructor|].
+  split; [repeat constructor; discriminate|].
+  split; [apply (good_split 2 node0 (good_node0 2))|].
+  constructor; [constructor | intros a k c []].
+Qed.
